@@ -830,7 +830,7 @@ func advDumpV(b *strings.Builder, v reflect.Value, depth int, typed bool) {
 		b.WriteString("nil")
 		return
 	}
-	if depth > 8 {
+	if depth > 24 {
 		b.WriteString("…")
 		return
 	}
@@ -1072,7 +1072,7 @@ func streamBindAdv(ctx *Ctx) *Result {
 			if strings.Contains(err.Error(), "is mapped from both") {
 				msg = "struct.F is mapped from both block.K1 and block.K2"
 			}
-			if strings.HasSuffix(msg, "has nil value") {
+			if strings.HasSuffix(err.Error(), "has nil value") {
 				msg = "block.K has nil value"
 			}
 			if strings.HasPrefix(msg, "block ") {
